@@ -61,15 +61,27 @@ def main(argv=None):
     for s in shards:
         s.setdefault("deadline", t0 + budget)  # absolute: exploration loops stop at the last completed bound and say so
 
+    # environment dimension: every third shard (by a hash of its id) runs in workers that imported the library BEFORE x64 was
+    # switched on -- the import order of the library's own tests and notebooks; x64 is on for every call either way
+    for s in shards:
+        s.setdefault("import_first", int(engine.khash([str(s.get("id"))]), 16) % 3 == 0)
     results, errors, capped = [], [], 0
     nwork = max(1, min(args.workers, len(shards)))
-    if only is not None or nwork == 1:
-        for s in shards:
-            results.append(engine.worker_run((modname, s, only)))
+    ctxmp = mp.get_context("spawn")
+    if only is not None:
+        if shards[0].get("import_first"):
+            with cf.ProcessPoolExecutor(max_workers=1, mp_context=ctxmp, initializer=engine.worker_init, initargs=(repo, VERIF, True)) as ex:
+                for s in shards:
+                    results.append(ex.submit(engine.worker_run, (modname, s, only)).result())
+        else:
+            for s in shards:
+                results.append(engine.worker_run((modname, s, only)))
     else:
-        ctxmp = mp.get_context("spawn")
-        with cf.ProcessPoolExecutor(max_workers=nwork, mp_context=ctxmp, initializer=engine.worker_init, initargs=(repo, VERIF)) as ex:
-            futs = [ex.submit(engine.worker_run, (modname, s, None)) for s in shards]
+        nB = sum(1 for s in shards if s["import_first"])
+        wB = 0 if nB == 0 else max(1, min(nB, int(round(nwork * nB / float(len(shards))))))
+        wA = max(1, nwork - wB)
+        with cf.ProcessPoolExecutor(max_workers=wA, mp_context=ctxmp, initializer=engine.worker_init, initargs=(repo, VERIF)) as ex, cf.ProcessPoolExecutor(max_workers=max(1, wB), mp_context=ctxmp, initializer=engine.worker_init, initargs=(repo, VERIF, True)) as exB:
+            futs = [(exB if s["import_first"] else ex).submit(engine.worker_run, (modname, s, None)) for s in shards]
             pending = set(futs)
             while pending:
                 done, pending = cf.wait(pending, timeout=5.0, return_when=cf.FIRST_COMPLETED)
@@ -122,6 +134,7 @@ def main(argv=None):
         samples=samples if samples else [{"note": "no sample recorded"}],
         exhaustive=bool(capped == 0 and not errors and counters.get("capped", 0) == 0),
         shards=len(results),
+        shards_import_before_x64=int(sum(1 for r in results if r["shard"].get("import_first"))),
         shards_not_run_budget_cap=int(capped),
         counters={k: (int(v) if float(v).is_integer() else float(v)) for k, v in sorted(counters.items())},
         bounds=getattr(drv, "BOUNDS", {}).get(args.tier, {}),
